@@ -55,6 +55,8 @@ pub struct Inject {
     pub when: u64,
     /// only syscalls touching these paths are traced/counted/injected (strace -P)
     pub paths: Vec<PathBuf>,
+    /// strace `when=` expression (e.g. "2+3" = the 2nd, 5th, 8th ... call); overrides `when`
+    pub when_expr: Option<String>,
 }
 
 #[derive(Clone, Debug)]
@@ -277,7 +279,8 @@ fn run_tool_once(datadir: &Path, dump: &Path, o: &RunOpts) -> Result<RunOut, Str
                 c.arg("-P").arg(p);
             }
             c.arg("-e").arg(format!("trace={}", inj.syscall));
-            c.arg("-e").arg(format!("inject={}:{}:when={}", inj.syscall, inj.action, inj.when));
+            let when = inj.when_expr.clone().unwrap_or_else(|| inj.when.to_string());
+            c.arg("-e").arg(format!("inject={}:{}:when={}", inj.syscall, inj.action, when));
             c.arg("-o").arg(io_dir.join("strace.log"));
         } else if let Some((what, path)) = &o.trace {
             for p in &o.trace_paths {
